@@ -1,3 +1,4 @@
+import GramModel.Lemmas.DeBruijn
 import GramModel.Check
 import GramModel.Lemmas.StoreCtx
 
@@ -52,3 +53,33 @@ example :
         { tctx := [(.int, 0)], dctx := [none] } with
      | .ok _ s' => s'.nerrs == 1 && s'.tctx == [(Tm.int, 0)] && s'.dctx == [none]
      | _ => false) = true := by decide
+
+/-! ## Checking under a binder is checking the body in the extended contexts -/
+
+/-- **Lambda wrap.**  Checking `(x : A) => t` is: check `A`, require its type to be `type`, then
+check `t` with `(A, 0)` / `None` pushed on the two contexts — nothing else; the verdict on the
+closed term is the verdict on the open body under the extended context, and its type is the
+function type over the body's type. -/
+def C18_lam_wrap_stmt : Prop :=
+  ∀ (f : Nat) (x : Name) (im : Bool) (A t : Tm) (s : St),
+    inferS (f+1) (.lam x im A t) s =
+      (do
+        let (d', dty) ← inferS f A
+        if !(← unifyS f dty .type) then reportError
+        pushCtx (d', 0) none
+        let (b', cod) ← inferS f t
+        popCtx
+        pure (Tm.lam x im d' b', Tm.pi x im d' cod)) s
+theorem C18_lam_wrap : C18_lam_wrap_stmt := by
+  intro f x im A t s
+  rfl
+
+/-- Lookups are insensitive to re-basing an entry: an entry `(T, o)` read at index `i` yields
+`ushift 0 (i + 1 - o) T`, so the entries `(T, o)` and `(ushift 0 k T, o + k)` — the same type stored
+`k` binders further in — give the same type for every lookup that can see them (`o + k ≤ i + 1`). -/
+def C18_lookup_rebase_stmt : Prop :=
+  ∀ (T : Tm) (o k i : Nat), o + k ≤ i + 1 →
+    ushift 0 (i + 1 - (o + k)) (ushift 0 k T) = ushift 0 (i + 1 - o) T
+theorem C18_lookup_rebase : C18_lookup_rebase_stmt := by
+  intro T o k i h
+  rw [ushift_ushift, show i + 1 - (o + k) + k = i + 1 - o by omega]
